@@ -1,5 +1,6 @@
 """C19 - a recorder returns exactly what was read, and replays it identically."""
 
+import io
 import shutil
 import tempfile
 
@@ -192,6 +193,107 @@ def run_history(ctx, case, history, tmpdir, use_recorder_class, pauses=()):
         cleanup()
 
 
+def recording_is_what_was_read(ctx, seed):
+    """Sources that do not behave like a file read front to back: a device that sometimes has less than a full window ready,
+    a stream that has nothing for a moment (None) and then goes on, a buffer source whose position the application moves
+    between two reads.  What the reader handed out before the rewind IS the portion consumed: data is its concatenation, each
+    sample once, in order, and reading again delivers the same audio."""
+    import random
+
+    from auditok.io import AudioSource, BufferAudioSource
+
+    rng = random.Random(seed)
+    scenario = rng.choice(("short_reads", "short_reads_big_windows", "transient_none", "position_moved"))
+    if scenario == "short_reads_big_windows":
+        rate, width, channels, block = 44100, 2, 2, rng.choice((16384, 22050, 30000))  # windows of 64 KiB and more
+        nblocks = rng.randint(3, 6)
+    else:
+        rate, width, channels, block = rng.choice((8, 10, 100)), rng.choice((1, 2)), rng.choice((1, 2)), rng.randint(2, 8)
+        nblocks = rng.randint(3, 9)
+    bps = width * channels
+    n = block * nblocks + rng.randint(0, block - 1)
+    unit = bytes(range(1, 252))
+    data = (unit * (n * bps // len(unit) + 1))[: n * bps] if n * bps > 5000 else rng.randbytes(n * bps)
+    plan = sorted(set(rng.sample(range(1, nblocks + 3), rng.choice((1, 2)))))  # read() calls (1-based) at which the odd thing happens
+
+    class Device(AudioSource):
+        def __init__(self):
+            super().__init__(rate, width, channels)
+            self._stream = io.BytesIO(data)
+            self._opened = False
+            self.calls = 0
+
+        def is_open(self):
+            return self._opened
+
+        def open(self):
+            self._opened = True
+
+        def close(self):
+            self._opened = False
+
+        def read(self, size):
+            self.calls += 1
+            if self.calls in plan:
+                if scenario == "transient_none":
+                    return None  # nothing right now
+                size = max(1, size // rng.choice((2, 3)))  # fewer samples than asked for
+            return self._stream.read(size * bps) or None
+
+    hop = None if scenario != "short_reads" or rng.random() < 0.7 else None
+    case = {"op": "recording-is-what-was-read", "seed": seed, "scenario": scenario, "fmt": [rate, width, channels], "block": block, "nsamples": n, "odd_calls": plan}
+    if scenario == "position_moved":
+        src = BufferAudioSource(data, rate, width, channels)
+    else:
+        src = Device()
+    cls = Recorder if rng.random() < 0.5 else None
+    try:
+        reader = Recorder(src, block_dur=block / rate, hop_dur=hop) if cls else AudioReader(src, block_dur=block / rate, hop_dur=hop, record=True)
+        reader.open()
+        got = []
+        for k in range(nblocks + 4):
+            if scenario == "position_moved" and (k + 1) in plan:
+                try:
+                    src.position = min(n, src.position + rng.randint(1, block))  # the application skips ahead in its own source
+                except Exception:
+                    pass
+            b = reader.read()
+            if b is not None:
+                got.append(bytes(b))
+        reader.rewind()
+        rec = reader.data
+        again = []
+        for _ in range(len(got) + nblocks + 6):
+            b = reader.read()
+            if b is None:
+                break
+            again.append(bytes(b))
+        reader.close()
+    except Exception as exc:
+        ctx.violation("exception-in-recording-is-what-was-read:" + type(exc).__name__, {"case": case, "exception": repr(exc)[:200]})
+        return
+    consumed = b"".join(got)
+    ctx.case(repr(case), bool(got))
+    ctx.count("recordings_of_sources_that_do_not_read_like_a_file")
+    ctx.count("recordings_scenario_" + scenario)
+    if rec != consumed:
+        key = "recorded-data-differs-from-consumed-audio"
+        if rec is not None and sorted(sample_chunks(rec, bps)) == sorted(sample_chunks(consumed, bps)) and len(rec) == len(consumed):
+            key = "recorded-data-in-another-order-than-consumed"
+        elif rec is not None and len(rec) > len(consumed):
+            key = "recorded-data-longer-than-consumed"
+        elif rec is not None and len(rec) < len(consumed):
+            key = "recorded-data-shorter-than-consumed"
+        ctx.violation(key, {"case": case, "recorded_samples": None if rec is None else len(rec) // bps, "consumed_samples": len(consumed) // bps})
+        return
+    if b"".join(again) != consumed:
+        ctx.violation("replay-differs-from-first-pass", {"case": case, "replayed_samples": len(b"".join(again)) // bps, "consumed_samples": len(consumed) // bps})
+
+
+def sample_chunks(data, bps):
+    return [data[i : i + bps] for i in range(0, len(data), bps)]
+
+
 def non_recording(ctx, case, tmpdir):
     data = RC.audio_of(case)
     try:
@@ -275,6 +377,8 @@ def run_shard(ctx):
                 non_recording(ctx, case, tmpdir)
             if i % 10 == 5:
                 non_recording(ctx, dict(case, kind="app_obj"), tmpdir)
+            if i % 10 == 8:
+                recording_is_what_was_read(ctx, rng.getrandbits(32))
             if i % 6 == 1 and history[0] > 1:
                 # a live recording that is paused and resumed: everything consumed, before and after the pause, is the recording
                 live = dict(case, kind=rng.choice(("stdin", "live_obj")))
@@ -292,7 +396,10 @@ def replay(ctx, case):
     cls = case.pop("cls", "Recorder")
     tmpdir = tempfile.mkdtemp(prefix="vf-c19-")
     try:
-        if case.pop("op", None) == "non_recording":
+        op_ = case.pop("op", None)
+        if op_ == "recording-is-what-was-read":
+            return recording_is_what_was_read(ctx, case["seed"])
+        if op_ == "non_recording":
             return non_recording(ctx, case, tmpdir)
         run_history(ctx, case, history, tmpdir, cls == "Recorder", pauses=set(case.pop("pauses", ())))
     finally:
@@ -303,5 +410,5 @@ def inconclusive(merged, tier):
     c = merged["counters"]
     need = ["histories", "rewinds", "replayed_reads", "data_before_rewind_raised", "histories_with_overlap",
             "histories_with_max_read", "histories_rewound_after_zero_reads", "histories_read_past_the_end",
-            "histories_rewound_after_partial_read", "non_recording_attribute_checks", "exhaustive_core_histories", "long_histories", "data_before_rewind_raised_after_reads", "histories_of_more_than_65536_reads", "pauses_before_the_first_rewind", "non_recording_readers_on_app_obj"]
+            "histories_rewound_after_partial_read", "non_recording_attribute_checks", "exhaustive_core_histories", "long_histories", "data_before_rewind_raised_after_reads", "histories_of_more_than_65536_reads", "pauses_before_the_first_rewind", "non_recording_readers_on_app_obj", "recordings_scenario_short_reads_big_windows", "recordings_scenario_transient_none", "recordings_scenario_position_moved"]
     return [f"monitor never observed {k}" for k in need if c.get(k, 0) == 0]
